@@ -232,6 +232,58 @@ def rule_R2(ctx):
             ctx.cannot("R2", fam + ":hash_flow:ip-slice", "hash_flow not found")
             continue
         HS = T.Slicer(hb, P)
+        # Ethernet framing is recognised by the EtherType alone (bytes 12..14 = 0x0800 / 0x86DD, frame longer than the link header):
+        # the decision does not look at any other byte of the frame (a destination MAC starting with 4 or 6 is not an IP version nibble)
+        from ..engine import guards as GV
+        for i_, j_, s_ in hb.iter_stmts():
+            if s_["k"] != "assign" or s_["p"]["pr"] or hb.local_name(s_["p"]["l"]) is None:
+                continue
+        eth_alts = []
+        for l_ in range(hb.arg_count + 1, len(hb.locals)):
+            if hb.local_ty(l_) != "usize" or not hb.local_name(l_):
+                continue
+            defs_ = HS.defs().get(l_, [])
+            vals_ = [T.fold_int(HS.def_term(l_, db_, dj_, 0)) for (db_, dj_, full_) in defs_]
+            if sorted(v for v in vals_ if v is not None) == [0, 14]:
+                for (db_, dj_, full_) in defs_:
+                    if T.fold_int(HS.def_term(l_, db_, dj_, 0)) == 14:
+                        eth_alts.append((db_, Q.canon_conds(P, T.dom_conds(hb, HS, db_))))
+        if not eth_alts:
+            ctx.cannot("R2", fam + ":hash_flow:ethernet-test", "the local choosing between offset 14 and 0 was not found", ctx.loc(hb))
+        for (db_, conds_) in eth_alts:
+            foreign = []
+            work = list(conds_)
+            seen_blocks = set()
+            while work:
+                c = work.pop(0)
+                if c[0] == "bool" and T.strip(c[1])[0] == "phi" and c[-1] is not None and c[-1] not in seen_blocks:
+                    # a flag assigned in match arms (`matches!((b12, b13), (0x08, 0x00) | (0x86, 0xDD))`): judge the tests that set it
+                    seen_blocks.add(c[-1])
+                    inner = Q.canon_conds(P, T.decision_inputs(hb, HS, c[-1]))
+                    if inner:
+                        work.extend(inner)
+                        continue
+                if c[0] == "int":
+                    idx = [T.fold_int(x[2]) for x in T.walk(c[1]) if x[0] == "index"]
+                    if idx and all(k in (12, 13) for k in idx):
+                        continue
+                    foreign.append("a switch on %s" % T.pp(c[1])[:30])
+                    continue
+                if c[0] == "cmp":
+                    subs = [c[2], c[3]]
+                    idx = [T.fold_int(x[2]) for y in subs for x in T.walk(y) if x[0] == "index"]
+                    is_len = any(T.has_call(y, "::len") for y in subs) and not idx
+                    if is_len or (idx and all(k in (12, 13) for k in idx)):
+                        continue
+                    foreign.append("a test of %s" % (("byte %s" % sorted(set(idx))) if idx else T.pp(c[2])[:30]))
+                elif c[0] == "bool" and T.strip(c[1])[0] == "const":
+                    continue
+                else:
+                    # any other condition (a flag computed elsewhere, an Option test, a helper call) is not the EtherType test
+                    foreign.append("`%s`" % T.pp(c[1])[:40])
+            ctx.check(not foreign, "R2", fam + ":hash_flow:ethernet-test", "Ethernet framing decided by the frame length and the EtherType bytes 12, 13 only",
+                      "whether hash_flow skips a 14-byte Ethernet header also depends on %s: Ethernet frames for which that test goes the other way are read as raw IP, "
+                      "the worker is chosen from MAC / EtherType / TOS bytes and one connection is spread over several workers" % sorted(set(foreign)), ctx.loc(hb, db_))
         for blk, t in hb.calls():
             nm = callee_of(t).rsplit("::", 1)[-1]
             if nm not in ("hash_ipv4_flow", "hash_ipv6_flow"):
